@@ -110,10 +110,11 @@ type State struct {
 	allocCtr string
 	notes    []string
 	dead     bool
+	looped   bool // a loop without (checked) invariants has been entered on this path: the state is only an over-approximation
 }
 
 func (s *State) clone() *State {
-	n := &State{cells: make(map[*Cell]Val, len(s.cells)), heap: make(map[string]string, len(s.heap)), defs: s.defs, allocCtr: s.allocCtr}
+	n := &State{cells: make(map[*Cell]Val, len(s.cells)), heap: make(map[string]string, len(s.heap)), defs: s.defs, allocCtr: s.allocCtr, looped: s.looped}
 	for k, v := range s.cells {
 		n.cells[k] = v
 	}
